@@ -65,6 +65,8 @@ func (s *Translator) translateWith() error {
 			currentPart.projections.Constraints = resolvedConstraint
 		}
 
+		var materializedBindings []*BoundIdentifier
+
 		for idx, projectionItem := range currentPart.projections.Items {
 			switch typedSelectItem := projectionItem.SelectItem.(type) {
 			case pgsql.CompoundIdentifier:
@@ -124,8 +126,10 @@ func (s *Translator) translateWith() error {
 						currentPart.projections.Items[idx].Alias = pgsql.AsOptionalIdentifier(projectedBinding.Identifier)
 					}
 
-					// Assign the frame to the binding's last projection backref
-					projectedBinding.MaterializedBy(currentPart.Frame)
+					// Assign the frame to the binding's last projection backref once every item has been rendered: an
+					// item rendered later (a path, or the same binding under a second name) still reads the binding from
+					// the frame it currently lives in
+					materializedBindings = append(materializedBindings, projectedBinding)
 
 					// Reveal and export the identifier in the current multipart query part's frame
 					currentPart.Frame.Reveal(projectedBinding.Identifier)
@@ -155,6 +159,10 @@ func (s *Translator) translateWith() error {
 					}
 				}
 			}
+		}
+
+		for _, materializedBinding := range materializedBindings {
+			materializedBinding.MaterializedBy(currentPart.Frame)
 		}
 
 		if !aggregatedItems.IsEmpty() {
